@@ -342,6 +342,9 @@ theorem profile_valid_after_save (name : α → String) (wanted A M X : List α)
   simpa [cm_effect_profile_COMMON, List.map_append, List.append_assoc, ht] using this
 end
 
+section
+open Pyc.Sync
+
 /-! non-vacuity of the three "after save" theorems: labelled elements that meet their hypotheses (tests, not theorems) -/
 
 /-- 1-9 `bind`, 20-29 and 60-69 `bind_vertex_input`, 40-49 `extra`, 70 `vertices`, 71-79 `source`, 80-89 `triangles`, 90 `technique`, 91-95 `image`, 96-99 `newparam` -/
@@ -365,5 +368,7 @@ example : cm_geometry_mesh.rmatch
 example : cm_effect_profile_COMMON.rmatch
     ((syncChildren (fun c => exName c == "newparam") [97, 99] ([] ++ [91, 96, 92, 97] ++ [90] ++ [40]) (some 90)).map exName) = true :=
   profile_valid_after_save exName [97, 99] [] [91, 96, 92, 97] [40] 90 (Or.inl rfl) (by decide) (by decide) (by decide) (by decide)
+
+end
 
 end Pyc.Props.C04
